@@ -259,8 +259,78 @@ def c05(prop, tier):
                'acknowledgements issued before the cut; plus clean close/reopen/load, also with the cache (leveldb) and keystore kept in a real directory; non-trivial = overlapping calls/batches')
     ck.assumptions = ['each persistence effect is durable once its call returns (the property\'s own assumption); effects are recorded by the simulated block store and cache']
     run_writepath(ck, prop, tier, 3, [1, 2, 3] if not thorough else [1, 2, 3, 4], 10 if not thorough else 60, crash_points=True)
+    # several runs of the process: what the cache says the heads are when the log in memory is not the whole database
+    run_headscache(ck, prop, tier, 120 if thorough else 24)
     return ck.finish(level='model_checking')
 
+
+
+# ---------------------------------------------------------------------------
+# HeadsCache: cached heads against the log in memory, over several runs of one replica (C05, C15, C01)
+
+def hc_cfg(name, keep, stops=2, nlocal=2, invs='Durable NoPhantom FullIsFull'):
+    return (name, '''SPECIFICATION Spec
+CONSTANTS NLocal = %d RemoteIds <- RIds RemotePar <- RPar RemoteClock <- RClock RemoteWriter <- RWriter MaxStops = %d KeepCachedHeads = %s
+INVARIANTS %s
+CHECK_DEADLOCK FALSE
+''' % (nlocal, stops, 'TRUE' if keep else 'FALSE', invs))
+
+
+HC_KINDS = {
+    'C05': {'lost-ack', 'phantom', 'not-closed', 'recover-view', 'recover-error', 'write-error', 'panic'},
+    'C15': {'limit-count', 'view-differs', 'panic'},
+    'C01': {'view-differs'},
+}
+
+
+def run_headscache(ck, prop, tier, n_sim):
+    """spec/HeadsCache.tla: one replica over several runs (open, full and limited loads on the live instance, writes, replications
+    before and after a load, stops); every behaviour is replayed call by call, a copy of the durable state is recovered after every step."""
+    thorough = tier == 'thorough'
+    r = vlib.tlc_check('MCHeadsCache.tla', hc_cfg('HeadsCache.cfg', True, 3 if thorough else 2, 3 if thorough else 2), prop + '-hc', timeout=900)
+    ck.require_model_ok(r, 'HeadsCache (cached heads outside the log are kept): acknowledged entries are reached from the cached heads in every state')
+    log('  TLC HeadsCache: %d distinct / %d generated, %.0fs' % (r['distinct'], r['generated'], r['wall']))
+    bs, mutants = [], []
+    for stops, what in ((2, 'a replication between reopening and loading'), (0, 'a limited load on the live instance')):
+        m = vlib.tlc_check('MCHeadsCache.tla', hc_cfg('HeadsCache.mutant%d.cfg' % stops, False, stops, invs='Durable'), '%s-hc-mutant%d' % (prop, stops))
+        ck.add_tlc(m, 'HeadsCache with cache puts that replace the cached heads (mutant specification, %s)' % what)
+        if m.get('violated') == 'Durable' and m.get('trace'):
+            bs.append({'id': 'replaced-heads-counterexample-%d' % stops, 'steps': m['trace']})
+            mutants.append('replaced-heads-counterexample-%d' % stops)
+        else:
+            ck.inconclusive.append('mutant specification (HeadsCache, replaced heads, %d stops) not refuted by TLC: vacuity guard failed' % stops)
+    sims, _ = vlib.tlc_simulate('MCHeadsCache.tla', hc_cfg('HeadsCache.sim.cfg', True, invs='Durable'), prop + '-hc-sim', n_sim, 14, SEED * 11 + 3)
+    bs += sims
+    for b in bs:
+        acts = [s['action'] for s in b['steps']]
+        # non-trivial: something happens between a reopening and the next full load, or a limited load is followed by a put of the cache
+        unloaded, nt = False, False
+        for a in acts:
+            if a in ('Open', 'LoadLimited'):
+                unloaded = True
+            elif a == 'LoadFull':
+                unloaded = False
+            elif a in ('Replicate', 'Write') and unloaded:
+                nt = True
+        if nt:
+            ck.distinct.add(vlib.beh_signature(b))
+    inp = {'property': prop, 'seed': SEED, 'behaviours': bs, 'mutant': mutants}
+    res = vlib.run_vh('headscache', inp, tag=prop + '-hc', timeout=600 if tier == 'quick' else 3000)
+    allv = res.get('violations', [])
+    res['violations'] = [v for v in allv if v['kind'] in HC_KINDS[prop]]
+    byid = {b['id']: b for b in bs}
+
+    def payload(v):
+        b = byid.get(v['behaviour'])
+        return {'command': 'headscache', 'input': dict(inp, behaviours=[b] if b else []), 'violation': v, 'kinds': sorted(HC_KINDS[prop])}
+    ck.add_harness(res, payload, 'headscache replay')
+    if not res.get('inconclusive'):
+        ck.traces_validated += res.get('behaviours', 0)
+    ck.extra['recoveries_after_steps'] = ck.extra.get('recoveries_after_steps', 0) + res['stats'].get('recoveries', 0)
+    log('  headscache: %d behaviours, %d steps, %d comparisons, %d recoveries, %d violations (%d outside this property), drift %d' % (
+        res['behaviours'], res['steps'], res['comparisons'], res['stats'].get('recoveries', 0), len(res['violations']),
+        len(allv) - len(res['violations']), res['stats'].get('drift', 0)))
+    return res
 
 # ---------------------------------------------------------------------------
 # C19: replication status
